@@ -335,7 +335,7 @@ class MappingSchema(AbstractMappingSchema, Schema):
     @classmethod
     def from_mapping_schema(cls, mapping_schema: MappingSchema) -> MappingSchema:
         return MappingSchema(
-            schema=mapping_schema.mapping,
+            schema=_copy_nested_mapping(mapping_schema.mapping),
             visible=mapping_schema.visible,
             dialect=mapping_schema.dialect,
             normalize=mapping_schema.normalize,
@@ -369,7 +369,9 @@ class MappingSchema(AbstractMappingSchema, Schema):
             "udf_mapping": self.udf_mapping.copy(),
             **kwargs,
         }
-        return MappingSchema(self.mapping.copy() if schema is None else schema, **mapping_kwargs)
+        return MappingSchema(
+            _copy_nested_mapping(self.mapping) if schema is None else schema, **mapping_kwargs
+        )
 
     def add_table(
         self,
@@ -688,6 +690,14 @@ class MappingSchema(AbstractMappingSchema, Schema):
                 raise SchemaError(f"Failed to build type '{schema_type}'{in_dialect}.")
 
         return self._type_mapping_cache[cache_key]
+
+
+def _copy_nested_mapping(mapping: dict[str, object]) -> dict[str, object]:
+    # A new schema must own every level of its nested mapping: add_table writes into the inner dicts
+    return {
+        key: _copy_nested_mapping(value) if isinstance(value, dict) else value
+        for key, value in mapping.items()
+    }
 
 
 def normalize_name(
